@@ -8,9 +8,12 @@ import Biogo.Model.ContWorld
 import Biogo.Proofs.Containers
 import Biogo.Proofs.ContFrame
 import Biogo.Proofs.ContGrid
+import Biogo.Proofs.ContCons
+import Biogo.Proofs.ContAln
+import Biogo.Generated.Alphabets
 
 namespace Biogo.Properties.C07
-open Biogo.Containers Biogo.Go
+open Biogo.Containers Biogo.Go Biogo.Alphabet
 
 /-! ### the column view is the row view -/
 
@@ -171,5 +174,127 @@ theorem append_no_retain_aln (cx : Ctx) (h h' : Cells) (a a' : Aln) (rows : Nat)
   · obtain ⟨c, _, hcs⟩ := hall.exists_left s hnew
     have := hcs.2.2.1
     omega
+
+/-! ### consensus of a unanimous column -/
+
+/-- per-letter facts about a built-in alphabet that the consensus law needs: a valid letter
+    has an index inside `0..Len-1`, `Letter(IndexOf l)` is `l` up to case, and (the built-in
+    alphabets being case-insensitive) the index does not depend on the case -/
+def consensusFactsAt (d : Def) (l : UInt8) : Bool :=
+  match d.build with
+  | .error _ => false
+  | .ok (a, _) =>
+    !a.valid l ||
+      (0 ≤ a.index l && (a.index l).toNat < a.length &&
+       (match a.letter (a.index l).toNat with
+        | some x => toLower x == toLower l
+        | none => false) &&
+       a.index (toLower l) == a.index l)
+
+theorem builtin_consensus_facts_nat :
+    ∀ d ∈ Biogo.Generated.builtins, ∀ n < 256, consensusFactsAt d (UInt8.ofNat n) = true := by
+  decide +kernel
+
+theorem builtin_consensus_facts (d : Def) (hd : d ∈ Biogo.Generated.builtins) (l : UInt8) :
+    consensusFactsAt d l = true := by
+  have h := builtin_consensus_facts_nat d hd l.toNat l.toNat_lt
+  simpa using h
+
+/-- **unanimous_consensus.** "a column in which every row holds the same valid letter has that
+    letter, up to case, as its count-based consensus": for every built-in alphabet and every
+    non-empty column whose letters are all valid and all equal to `l0` up to case, the letter of
+    `seq.DefaultConsensus` (arg-max of the counts of valid letters) equals `l0` up to case. -/
+theorem unanimous_consensus (d : Def) (hd : d ∈ Biogo.Generated.builtins) (a : Alpha)
+    (p : Option Pairing) (hb : d.build = .ok (a, p)) (col : List UInt8) (l0 : UInt8) (hl0 : l0 ∈ col)
+    (hall : ∀ l ∈ col, a.valid l = true ∧ toLower l = toLower l0) :
+    toLower (consensusLetter a col) = toLower l0 := by
+  have facts : ∀ l, a.valid l = true →
+      0 ≤ a.index l ∧ (a.index l).toNat < a.length ∧
+      (∃ x, a.letter (a.index l).toNat = some x ∧ toLower x = toLower l) ∧
+      a.index (toLower l) = a.index l := by
+    intro l hv
+    have h := builtin_consensus_facts d hd l
+    simp only [consensusFactsAt, hb, hv, Bool.not_true, Bool.false_or, Bool.and_eq_true,
+      decide_eq_true_eq, beq_iff_eq] at h
+    obtain ⟨⟨⟨h1, h2⟩, h3⟩, h4⟩ := h
+    refine ⟨h1, h2, ?_, h4⟩
+    cases hx : a.letter (a.index l).toNat with
+    | none => simp [hx] at h3
+    | some x => simp only [hx, beq_iff_eq] at h3; exact ⟨x, rfl, h3⟩
+  obtain ⟨hv0, _⟩ := hall l0 hl0
+  obtain ⟨_, hk, ⟨x, hx, hxl⟩, _⟩ := facts l0 hv0
+  have hidx : ∀ l ∈ col, a.valid l = true ∧ (a.index l).toNat = (a.index l0).toNat := by
+    intro l hl
+    obtain ⟨hv, hlow⟩ := hall l hl
+    refine ⟨hv, ?_⟩
+    have e1 := (facts l hv).2.2.2
+    have e2 := (facts l0 hv0).2.2.2
+    rw [← e1, hlow, e2]
+  have hne : col ≠ [] := List.ne_nil_of_mem hl0
+  rw [consensus_unanimous a col (a.index l0).toNat hne hk hidx, hx]
+  exact hxl
+
+-- non-vacuity: DNA, the column [A, a, A] has consensus a
+example : (match Biogo.Generated.alphaDNA.build with
+    | .ok (a, _) => consensusLetter a [65, 97, 65] == 97 && a.valid 65
+    | .error _ => false) = true := by decide +kernel
+
+/-! ### Delete -/
+
+/-- **delete_exact (alignment.Seq / alignment.QSeq).** "Delete removes exactly the indexed
+    row": for a well-formed alignment of `n` rows and `i < n`, after `Delete(i)` every column
+    reads as it read before with entry `i` removed (the entries of the other rows keep their
+    order), every column has `n-1` rows, and the row annotations lose exactly entry `i`. -/
+theorem delete_exact_aln (h : Cells) (a : Aln) (n i : Nat) (hi : i < n) (hw : ColsWF h n a.cols)
+    (hcap : ∀ c ∈ a.cols, c.len ≤ c.cap) :
+    All2 (fun c c' => (a.delete h i).1.read c' = (h.read c).eraseIdx i ∧ c'.len = n - 1)
+      a.cols (a.delete h i).2.cols ∧
+    (a.delete h i).2.subs = a.subs.eraseIdx i ∧ (a.delete h i).2.strand = a.strand ∧
+    (a.delete h i).2.q = a.q := by
+  obtain ⟨cols', h2, hall, _, _⟩ := delFold_spec i n hi a.cols h [] hw hcap
+  rw [Aln.delete_eq]
+  simp only [List.nil_append] at h2
+  simp only [h2]
+  exact ⟨hall.imp fun c c' hcc => ⟨hcc.1, hcc.2.2⟩, trivial, trivial, trivial⟩
+
+/-- **delete_exact (multi.Multi).** The rows after `Delete(i)` are the rows before without
+    row `i`; no letter is touched. -/
+theorem delete_exact_multi (h : Cells) (m : Multi) (i : Nat) :
+    (Obj.multi (m.delete i)).rowsV h = ((Obj.multi m).rowsV h).eraseIdx i := by
+  simp only [Obj.rowsV, Obj.lins, Multi.delete]
+  generalize m.rows = rows
+  induction rows generalizing i with
+  | nil => rfl
+  | cons r rs ih =>
+    cases i with
+    | zero => rfl
+    | succ i => simp only [List.eraseIdx_cons_succ, List.map_cons, ih]
+
+/-! ### AppendEach on column-stored alignments -/
+
+/-- **append_exact (alignment.Seq / alignment.QSeq, AppendEach).** With one run per row,
+    `AppendEach` reports no error and appends `max_i len(run_i)` columns; the old columns read
+    exactly as before; new column `j` holds, for row `r`, the `j`-th letter of run `r`, or the
+    gap letter when run `r` is shorter ("column-stored alignments padding shorter runs with the
+    gap letter"); every new column lives in an array allocated by the call (so nothing of the
+    caller's buffers or of the scratch column is retained). -/
+theorem append_each_exact_aln (cx : Ctx) (h : Cells) (a : Aln) (rows : Nat) (runs : List (List QL))
+    (hv : a.ColsValid h) (hr : runs.length = rows) :
+    ∃ h' a' news, a.appendEach cx h rows runs = some (h', a') ∧
+      a'.cols = a.cols ++ news ∧
+      news.length = runs.foldl (fun m ss => Nat.max m ss.length) 0 ∧
+      (∀ c ∈ a.cols, h'.read c = h.read c) ∧
+      (∀ (j : Nat) (s : Slice), news[j]? = some s →
+        h'.read s = (runs.map fun ss => match ss[j]? with | some c => c | none => ⟨cx.gap, 0⟩).map (Lin.stored a.q) ∧
+        h.arrays.length ≤ s.arr) ∧
+      a'.subs = a.subs ∧ a'.q = a.q := by
+  obtain ⟨hk, ak, news, hfold, hcols, hlen, hnews, hold, _, hq, hsubs, _, _⟩ :=
+    appendEach_prefix cx rows runs hr h a (runs.foldl (fun m ss => Nat.max m ss.length) 0)
+  refine ⟨hk, ak, news, ?_, hcols, hlen, fun c hc => read_congr_arr _ _ _ (hold _ (hv c hc)), ?_, hsubs, hq⟩
+  · simp only [Aln.appendEach, hr, bne_self_eq_false, Bool.false_eq_true, if_false]
+    exact hfold
+  · intro j s hs
+    obtain ⟨e1, e2, _⟩ := hnews j s hs
+    exact ⟨e1, e2⟩
 
 end Biogo.Properties.C07
